@@ -332,8 +332,10 @@ def execute(tasks, w, chooser, memo):
     finally:
         P.Pool = S["orig_pool"]
         ctl.shutdown()
-    if not ctl.pools:
-        raise core.HarnessError("Parser.parse did not construct a pool through rzilcompiler.Parser.Pool: the seam is bypassed in this tree")
+    # A call that answers without constructing a pool (nothing was handed to workers) has one schedule, the empty one:
+    # its result is compared with the sequential reference like every other outcome.  (A tree that parses in-process
+    # or through another pool class would also end here, and would then be checked on its results alone.)
+    ctl.no_pool = not ctl.pools
     return obs, ctl
 
 
@@ -376,6 +378,7 @@ def explore_item(item):
         return execute(tasks, w, ch, memo)
 
     with fast_conf():
+      try:
         for choices, (obs, ctl) in core.explore(once):
             st["schedules"] += 1
             st["moves"] += len(ctl.trace)
@@ -407,6 +410,12 @@ def explore_item(item):
                 _hangs(bump=True)
                 st["capped"] = True
                 break
+      except core.ReplayDivergence as e:
+        # Replaying a recorded prefix of pool moves on the same task list took a different course: every source of
+        # nondeterminism of the pool is owned by the controller, so the call itself depends on what was parsed before
+        # in this process (state kept between calls of Parser.parse).  That is a finding about the code, not the harness.
+        st["diverged"] = "%s after %d schedules" % (e, st["schedules"])
+        st["capped"] = True
     st.update(pairs=len(pairs), states=len(states), edges=len(edges), insertion_orders=len(orders), outcomes=outcomes, first=first, last=last)
     return st
 
@@ -741,6 +750,10 @@ def run(ctx):
                 b[key] = val
             elif b[key] != val:
                 b[key] = "varies"  # the schedule tree does not depend on task contents
+        if s.get("diverged"):
+            c = case_base(chain, tasks)
+            c.update(kind="history_dependent_call", workers=w, why=s["diverged"])
+            found.append((c, "%s on %d workers: parsing the same task list again in the same process takes a different course (%s): Parser.parse keeps state between calls" % (list(letters), w, s["diverged"])))
         if s["capped"]:
             b["exhaustive"] = False
             capped.append([list(letters), w, s["schedules"]])
@@ -786,10 +799,14 @@ def run(ctx):
                 raise core.HarnessError("live re-execution of %r on %d workers, schedule %r: %r" % (chain, w, choices, r))
             obs, trace, got_choices, nexec = r[1]
             if got_choices != choices or trace != s["last"]["trace"] or obs_hash(obs) != s["last"]["hash"]:
-                raise core.HarnessError(
-                    "live execution (no memo) of %r on %d workers, schedule %r differs from the memoised execution: %s vs %s"
-                    % (chain, w, choices, obs_hash(obs), s["last"]["hash"])
-                )
+                # the same schedule of the same task list, once as the first call of a fresh process and once after other
+                # calls in the exploring process: a difference is state that Parser.parse keeps between calls (the memo of
+                # worker replies is validated separately by the selftest and cannot change the course of the parent)
+                c = case_base(chain, make_tasks(chain))
+                c.update(kind="first_call_vs_later_call", workers=w, schedule=choices, moves_first_call=[move_text(m) for m in trace], moves_later_call=s["last"]["moves"], observed=obs)
+                found.append((c, "%s on %d workers, schedule %r: the first call in a fresh process and a later call in a long-lived process differ (moves %d vs %d, result %s vs %s)"
+                              % ([L for _, L in chain], w, choices, len(trace), len(s["last"]["trace"]), obs_hash(obs), s["last"]["hash"])))
+                continue
             live_valid += 1
         ctx.log("live validation: %d schedules re-executed without memo, identical (%.0f s)" % (live_valid, time.time() - t0))
 
